@@ -30,8 +30,8 @@ ASSUMPTIONS = [
     "step independence of the annual reach is claimed for no / per-year capacity constraints only (an absolute constraint on a one-off program is per step by definition)",
     "comparison tolerance |a-b| <= 1e-9*max(1,|a|,|b|); monotonicity is checked with the same tolerance",
 ]
-BUDGET = {"quick": 100000, "thorough": 3500000}
-TIME_CAP = {"quick": 35, "thorough": 1100}
+BUDGET = {"quick": 100000, "thorough": 800000}  # thorough = 8x quick: a depth that was run to completion, quiet, at seed 1 (deterministic given the seed)
+TIME_CAP = {"quick": 35, "thorough": 1500}
 
 INF = float("inf")
 YEARS = [2015.0, 2018.0, 2019.0, 2020.0, 2020.1, 2020.25, 2020.3, 2020.5, 2021.0, 2022.0, 2023.0, 2025.0]
